@@ -514,7 +514,9 @@ ALPHABET = [0x00, 0x20, 0x2b, 0x2d, 0x30, 0x31, 0x39, 0x40, 0x4e, 0x5f, 0x60, 0x
 
 def alphabet(codec):
     extra = []
-    for ch in '-+ _09':
+    # sign, space, underscore, digits, every whitespace class (C-locale, U+001C..U+001F which are isspace() but which
+    # int() refuses, NEL, NBSP), superscript two
+    for ch in '-+ _09\t\n\x0b\x0c\r\x1c\x1d\x1e\x1f\x85\xa0\xb2':
         try:
             extra.append(ch.encode(codec)[0])
         except UnicodeEncodeError:
